@@ -125,6 +125,13 @@ def to_yaml(template, path: str, **kwargs) -> None:
     from pyrates.frontend.fileio.yaml import dump_to_yaml
     dump_to_yaml(template, path=path, **kwargs)
 
+    # templates that were loaded from this file earlier are stale now: the next `from_yaml` has to read the file again
+    import os
+    file_path = os.path.abspath(path[:-5] if path.endswith('.yaml') else path[:-4] if path.endswith('.yml') else path)
+    for key in list(template_cache):
+        if '/' in key and os.path.abspath(key.rsplit('/', 1)[0]) == file_path:
+            template_cache.pop(key)
+
 
 def clear_cache():
     """Shorthand to clear template cache for whatever reason."""
